@@ -494,6 +494,10 @@ func shouldIgnoreTriple(t *triple.Triple, cls *semantic.GraphClause) (bool, erro
 					return true, nil
 				}
 			}
+		} else if !cls.Optional || cls.OAnchorBinding == "" {
+			// The clause asks for a predicate as object; nodes and literals do not match.
+			// (Optional clauses with an anchor binding keep such triples and show the binding as <NULL>.)
+			return true, nil
 		}
 	}
 
